@@ -140,9 +140,14 @@ def matching_starts(text, seq):
 _ALIVE = []
 
 
-def _info(cls, seq):
+def _topo(case):
+    """the spelling of the topology annotation the records of this case carry (None: no annotation)"""
+    return case.get("topology")
+
+
+def _info(cls, seq, topo=None):
     from harness import implutil
-    ent = cls(implutil.mk_circular(seq, "r"))
+    ent = cls(implutil.mk_circular(seq, "r", annotations={"topology": topo} if topo else None))
     # every wrapper stays alive while the others are asked (the same plasmid read from several origins, by
     # several wrappers of one class, at the same time): what one reports never depends on the others
     _ALIVE.append(ent)
@@ -159,7 +164,7 @@ def impl_rotations(case):
     starts = matching_starts(cls.structure(), seq)
     out = {"starts": len(starts), "obs": []}
     for k in case["ks"]:
-        info, hasp = _info(cls, gens.rotate(seq, k))
+        info, hasp = _info(cls, gens.rotate(seq, k), _topo(case))
         info["has_placeholder"] = hasp
         out["obs"].append(info)
     if starts:
@@ -178,9 +183,9 @@ def oracle_rotations(case):
     seq = case["seq"]
     if len(matching_starts(cls.structure(), seq)) != 1:
         return None
-    base, _ = _info(cls, seq)
+    base, _ = _info(cls, seq, _topo(case))
     # the very record object that was typed (and membership-tested) is then rotated with >> / <<
-    rec0 = implutil.mk_circular(seq, "r")
+    rec0 = implutil.mk_circular(seq, "r", annotations={"topology": _topo(case)} if _topo(case) else None)
     # an annotation over the first letters of the structure (recognition site, spacer, overhang), as curated
     # plasmids carry: after `>> k` it may hang over the origin, and typing rotates the record once more
     from Bio.SeqFeature import SeqFeature, FeatureLocation
@@ -199,7 +204,7 @@ def oracle_rotations(case):
                         "what": "%s: after typing a record and rotating that same object by %d it reports %s, unrotated %s"
                                 % (cls.__name__, k, {f: got[f] for f in diff}, {f: base[f] for f in diff}), "k": k}
     for k in case["ks"]:
-        got, _ = _info(cls, gens.rotate(seq, k))
+        got, _ = _info(cls, gens.rotate(seq, k), _topo(case))
         if got != base:
             diff = [f for f in base if base[f] != got[f]]
             start = matching_starts(cls.structure(), seq)[0]
@@ -333,7 +338,9 @@ def run(ctx):
     cases = []
     for spec, seq, tag in subjects:
         n = len(seq)
-        cases.append({"cls": spec, "seq": seq, "ks": list(range(n)) + [-1, n, 2 * n + 3], "tag": tag})
+        # the records of a case carry no topology annotation, or one in some spelling the constructor accepts
+        cases.append({"cls": spec, "seq": seq, "ks": list(range(n)) + [-1, n, 2 * n + 3], "tag": tag,
+                      "topology": rng.choice([None, None, "circular", "Circular", "CIRCULAR"])})
     # registry plasmids
     regs = common.run_impl(ctx, "C02", "registry_subjects", [None], shards=1)[0]
     accepted = [r for r in regs if r["valid"]]
